@@ -161,3 +161,23 @@ check('C13',
       'hang, join iff target returned); no pickling; OS process management '
       'outside; counterexamples of the pending kind were confirmed with the '
       'real multiprocessing transport by hand')
+check('C15',
+      'Generated composites (2-3 processes, 5 wirings with "..", default '
+      'present/absent per variable, explicit state present/absent per node, '
+      'own initial_state present/absent, depth 0/2): the solver shows each '
+      'declared variable at its lexically resolved node holding the explicit '
+      'value or the default (d1 = d2 => value = d1 for double declarations), '
+      'through Engine, generate_state, Composite.initial_state / default_state '
+      '/ generate_store; conflicting _value declarations raise exactly when '
+      'the solver can make them differ; glob children get sub-schema defaults.',
+      'numpy defaults and quantities as values concrete or outside')
+check('C16',
+      'A composer is generated at every embedding path and run through '
+      'Composite / parts / generated store with symbolic schedule constants: '
+      'the solver shows re-rooted rows equal; merge sequences (length <= 3(4)) '
+      'over a template composite merged repeatedly, fresh composites and loose '
+      'parts at three paths are enumerated and union / unchanged are checked '
+      'on identity snapshots after every merge; schema overrides are checked '
+      'for every process x port.',
+      'stub processes keep the default initial_state(); merge dimension is '
+      'enumeration by solver-driven choices')
